@@ -9,11 +9,11 @@ class RefMessage(object):
     pass
 
 
-def decode(data, at=0, strict_padding=True):
+def decode(data, at=0, strict_padding=True, ignore_total=False):
     """Reference decode of one message starting at data[at:].  Raises IllFormed when the
     message is not well formed (framing, undefined descriptors, data not fitting section 4,
     non-zero padding)."""
-    p = frame.parse(data, at)
+    p = frame.parse(data, at, ignore_total=ignore_total)
     m = RefMessage()
     m.parsed = p
     meta = p.meta
